@@ -42,7 +42,15 @@ func ValidateAgainstSchema(chrt *chart.Chart, values map[string]interface{}) err
 	slog.Debug("number of dependencies in the chart", "dependencies", len(chrt.Dependencies()))
 	// For each dependency, recursively call this function with the coalesced values
 	for _, subchart := range chrt.Dependencies() {
-		subchartValues := values[subchart.Name()].(map[string]interface{})
+		raw, present := values[subchart.Name()]
+		subchartValues, ok := raw.(map[string]interface{})
+		if !ok {
+			if present && raw != nil {
+				sb.WriteString(fmt.Sprintf("%s:\nvalues for subchart %s must be a table\n", chrt.Name(), subchart.Name()))
+				continue
+			}
+			subchartValues = map[string]interface{}{}
+		}
 		if err := ValidateAgainstSchema(subchart, subchartValues); err != nil {
 			sb.WriteString(err.Error())
 		}
